@@ -7,6 +7,7 @@ import (
 	"os"
 	"os/exec"
 	"path/filepath"
+	"time"
 )
 
 // Model is a running extracted model (coq/extract/modelrun).
@@ -45,7 +46,11 @@ func StartModel() (*Model, error) {
 
 // Call sends one request and reads one response.
 func (m *Model) Call(req Val) Val {
+	t0 := time.Now()
 	r := m.Batch([]Val{req})
+	if os.Getenv("VH_DEBUG") != "" && time.Since(t0) > 500*time.Millisecond && req.IsL && len(req.List) > 0 {
+		fmt.Fprintf(os.Stderr, "slow model call %s: %v (request %d bytes)\n", req.List[0].Atom, time.Since(t0), len(req.String()))
+	}
 	return r[0]
 }
 
